@@ -156,7 +156,7 @@ Definition re_parse (pat : list Z) : res (option node) :=
 
 (* ---- compile.c *)
 Inductive instr :=
-| IMatch | IChr (c : Z) | IAny | ICls (neg : bool) (set : list (Z * Z))
+| IMatch | IChr (c : Z) | IAny | ICls (neg : bool) (set : list Z)      (* set = the members of klass, in the order they are added *)
 | ISplit (a b : Z) | IJmp (t : Z) | IBeg | IEnd | ISave (k : Z).
 
 Definition sat (n : Z) : Z := if (0 <=? re_max_instructions) && (n >? re_max_instructions) then re_max_instructions + 1 else n.
@@ -185,8 +185,19 @@ Fixpoint anchored (n : node) : bool :=
   | _ => false
   end.
 
-(* compile_char_class: the members as inclusive ranges *)
-Fixpoint cls_set (fuel : nat) (first : bool) (s : list Z) : res (list (Z * Z)) :=
+(* the loop that expands a range lo-hi of a class:  for ( ; ch <= hi; ++ch) cregex_char_class_add(klass, ch);
+   ctr = the type of the counter: `int ch` in the code (no wrap-around below 2^31), an 8 bit counter would be ctr_u8.
+   fuel 257 = 256 members + the final test *)
+Fixpoint range_expand (ctr : Z -> Z) (fuel : nat) (ch hi : Z) : res (list Z) :=
+  match fuel with O => Fuel | S f =>
+    if ch <=? hi then (do r <- range_expand ctr f (ctr (ch + 1)) hi; Ok (ch :: r)) else Ok []
+  end.
+Definition ctr_int (x : Z) : Z := x.
+Definition ctr_u8 (x : Z) : Z := x mod 256.
+Definition range_fuel : nat := 257.
+
+(* compile_char_class: the members of the class *)
+Fixpoint cls_set (fuel : nat) (first : bool) (s : list Z) : res (list Z) :=
   match fuel with O => Fuel | S f =>
     do ch <- pk s;
     let s1 := tl s in
@@ -197,12 +208,13 @@ Fixpoint cls_set (fuel : nat) (first : bool) (s : list Z) : res (list (Z * Z)) :
       do d <- pk s2;
       if d =? 45 then
         do e <- pk (tl s2);
-        if negb (e =? 93) then (do r <- cls_set f false (tl (tl s2)); Ok ((c, e) :: r))
-        else (do r <- cls_set f false s2; Ok ((c, c) :: r))
-      else (do r <- cls_set f false s2; Ok ((c, c) :: r))
+        if negb (e =? 93) then
+          (do m <- range_expand ctr_int range_fuel c e; do r <- cls_set f false (tl (tl s2)); Ok (m ++ r))
+        else (do r <- cls_set f false s2; Ok (c :: r))
+      else (do r <- cls_set f false s2; Ok (c :: r))
   end.
 
-Definition in_set (c : Z) (set : list (Z * Z)) : bool := existsb (fun r => (fst r <=? c) && (c <=? snd r)) set.
+Definition in_set (c : Z) (set : list Z) : bool := existsb (Z.eqb c) set.
 
 Definition ilen (l : list instr) : Z := Z.of_nat (length l).
 Definition swap_if (b : bool) (x y : Z) : instr := if b then ISplit y x else ISplit x y.
